@@ -47,7 +47,17 @@ JudgeStage(e) ==
   \cup (IF ~NotifyAfterData(e.kind, post) THEN {"Inv_notify_after_data"} ELSE {})
   \cup (IF e.i > 0 /\ ~e.chained THEN {"Chain"} ELSE {})
 
-Judge(e) == IF e.t = "api" THEN JudgeApi(e) ELSE JudgeStage(e)
+JudgeSync(e) ==
+  LET x == SyncRun(e.loc, e.disabled, e.o, e.via) IN
+     (IF SyncOffered(e.loc, e.disabled) # e.offered THEN {"Sync_offered"} ELSE {})
+  \cup (IF x.res.kind # e.kind THEN {"Sync_kind"} ELSE {})
+  \cup (IF x.res.kind = "raise" /\ e.kind = "raise" /\ x.res.cls # e.cls THEN {"Sync_exc"} ELSE {})
+  \cup (IF x.res.kind = "raise" /\ e.kind = "raise" /\ x.res.wrapped # e.wrapped THEN {"Sync_wrapped"} ELSE {})
+  \cup (IF x.log # e.log THEN {"Sync_order"} ELSE {})
+  \cup (IF x.res.kind = "ret" /\ e.kind = "ret" /\ x.val # e.val THEN {"Sync_value"} ELSE {})
+  \cup (IF e.lazy /\ SyncOffered(e.loc, e.disabled) /\ e.kind # "or_return" /\ ~e.instantiated THEN {"Sync_lazy"} ELSE {})
+
+Judge(e) == IF e.t = "api" THEN JudgeApi(e) ELSE IF e.t = "sync" THEN JudgeSync(e) ELSE JudgeStage(e)
 TraceInit == l = 0
 TraceNext == /\ l < Len(Tr) /\ l' = l + 1
              /\ Report(Tr[l'].tid, Tr[l'].i, Judge(Tr[l']))
